@@ -196,6 +196,10 @@ def run(ctx):
                 for columns in range(1, 8):
                     run_case(ctx, {"text": text, "pattern": pattern, "columns": columns})
             ctx.count("texts_enumerated")
+    if ctx.shard[0] == 0:
+        # one very long word (a path, a base64 blob): chopped into thousands of pieces
+        for L, cols_ in ((1500, 1), (3000, 2), (5000, 7)):
+            run_case(ctx, {"text": "ab " + "x" * L + " cd", "pattern": "uniform", "columns": cols_, "again": False})
     ctx.exhaustive = True
     ctx.notes["max_length_enumerated"] = N
     rng = ctx.rng
